@@ -379,10 +379,35 @@ def extobj_bodies(run):
                 return
 
 
+def xml_text_exact(run):
+    """raw XML element values are JSON strings holding the element's text character for character — including the white
+    space around it (the parser keeps the indentation that followed the element in its document)"""
+    import opcua_tools.ua_data_types as U
+    texts = ["<a/>\n      ", "\n  <a>1</a>", "<a>1</a>\t", " <a b=\"1\">é</a> ", "<a/>\r\n", "\u00a0<a>x</a>\u00a0", "<a>\n  <b/>\n</a>\n    "]
+    for j, t in enumerate(texts):
+        case = {"xml_element_text": t, "in_variant": j % 2 == 1}
+        run.case(case, tag="json:XmlElement:whitespace")
+        try:
+            obj = U.UAXMLElement(value=t)
+            text = (U.UAVariant(value=obj) if j % 2 == 1 else obj).json_encode()
+            jv = strict_loads(text)
+            if j % 2 == 1:
+                assert num(jv["Type"]) == 16
+                jv = jv["Body"]
+            assert jv == t
+        except Exception as e:  # noqa: BLE001
+            if run.violation(case, {"what": "a raw XML element value is not encoded as the JSON string of exactly its text", "error": type(e).__name__ + ": " + str(e)[:200],
+                                    "impl": str(locals().get("text"))[:300], "call": "UAXMLElement.json_encode()"}):
+                return
+
+
 def explore(run):
     rng = run.rng
     thorough = run.tier == "thorough"
     cache_witness(run)
+    xml_text_exact(run)
+    if run.full():
+        return
     extobj_bodies(run)
     if run.full():
         return
